@@ -482,6 +482,11 @@ func (p *Pool) worker() {
 			p.ch <- ob
 			continue
 		}
+		if final.res == "unknown" && ob.Kind == "assert" && ob.Script != "" {
+			// neither proved nor refuted: probe for a counterexample at concrete points of the
+			// path condition (an under-approximation: any hit is a genuine model of the full query)
+			ob.ProbeModels = probeCounterexample(s1, ob, p.seed)
+		}
 		ob.Result, ob.Model = final.res, final.model
 		ob.Solver = final.who.kind.Name
 		if final.res == "unsat" && !keepScripts {
@@ -812,4 +817,74 @@ func formatValue(v interface{}, s Sort) string {
 		}
 		return bi.String()
 	}
+}
+
+// probeCounterexample: models of the path condition alone (the first one plus several pushed
+// greedily away from it); the driver evaluates the real code natively at these points.  This is
+// a bug-hunting stage for obligations the solver could neither prove nor refute: a hit is a
+// violation confirmed by native execution, a miss leaves the obligation INCONCLUSIVE.
+func probeCounterexample(ss *scriptSolver, ob *Obligation, seed int) []Model {
+	script := ob.Script
+	cs := strings.LastIndex(script, "(check-sat)")
+	if cs < 0 {
+		return nil
+	}
+	body := script[:cs]
+	la := strings.LastIndex(body, "(assert ")
+	if la < 0 {
+		return nil
+	}
+	pcOnly := body[:la]
+	var syms []string
+	for name, srt := range ob.Vars {
+		if strings.HasPrefix(name, "sym:") && (srt == SReal || srt == SInt) {
+			syms = append(syms, name)
+		}
+	}
+	sort.Strings(syms)
+	if len(syms) == 0 {
+		return nil
+	}
+	rnd := uint32(seed*2654435761 + 12345)
+	next := func() uint32 { rnd = rnd*1664525 + 1013904223; return rnd >> 8 }
+	res, m0 := ss.Run(pcOnly+"(check-sat)\n", ob.Vars, 10000, seed)
+	if res != "sat" || m0 == nil {
+		return nil
+	}
+	models := []Model{m0}
+	// push every symbol away from the first (typically boundary/zero) model, greedily
+	for _, off := range []string{"1.0", "0.125", "7.0", "100.0"} {
+		extra := ""
+		last := m0
+		for _, v := range syms {
+			raw, ok := m0[v]
+			if !ok || strings.Contains(raw, "?") {
+				continue
+			}
+			tried := false
+			for _, c := range []string{
+				fmt.Sprintf("(assert (> %s (+ %s %s)))\n", smtSym(v), raw, off),
+				fmt.Sprintf("(assert (< %s (- %s %s)))\n", smtSym(v), raw, off),
+				fmt.Sprintf("(assert (> %s %s))\n", smtSym(v), raw),
+			} {
+				if ob.Vars[v] == SInt {
+					c = strings.ReplaceAll(c, off, strings.TrimSuffix(strings.TrimSuffix(off, ".0"), ".125"))
+					if strings.Contains(c, "( )") || strings.Contains(c, "+ "+raw+" )") {
+						continue
+					}
+				}
+				r, mk := ss.Run(pcOnly+extra+c+"(check-sat)\n", ob.Vars, 2000, seed)
+				if r == "sat" && mk != nil {
+					extra += c
+					last = mk
+					tried = true
+					break
+				}
+			}
+			_ = tried
+			_ = next
+		}
+		models = append(models, last)
+	}
+	return models
 }
